@@ -28,13 +28,24 @@ string Hex64(uint64_t v) {
   return b;
 }
 
+// paths inside a command line are written with %20 for a space and %25 for a percent sign
+static string DecodePath(const string& s) {
+  string o;
+  for (size_t i = 0; i < s.size(); ++i) {
+    if (s[i] == '%' && i + 2 < s.size() + 0 && s.compare(i, 3, "%20") == 0) { o += ' '; i += 2; }
+    else if (s[i] == '%' && s.compare(i, 3, "%25") == 0) { o += '%'; i += 2; }
+    else o += s[i];
+  }
+  return o;
+}
+
 static vector<string> SplitComma(const string& s) {
   vector<string> r;
   size_t i = 0;
   while (i <= s.size()) {
     size_t j = s.find(',', i);
     if (j == string::npos) j = s.size();
-    if (j > i) r.push_back(s.substr(i, j - i));
+    if (j > i) r.push_back(DecodePath(s.substr(i, j - i)));
     i = j + 1;
   }
   return r;
@@ -63,8 +74,8 @@ CmdSpec ParseCmd(const string& line) {
     if (k == "o") c.outs = SplitComma(v);
     else if (k == "r") c.reads = SplitComma(v);
     else if (k == "h") c.hidden = SplitComma(v);
-    else if (k == "d") c.depfile = v;
-    else if (k == "rsp") c.rsp = v;
+    else if (k == "d") c.depfile = DecodePath(v);
+    else if (k == "rsp") c.rsp = DecodePath(v);
     else if (k == "p") c.print = Unhex(v);
     else if (k == "msvc") c.msvc = v != "0";
     else if (k == "restat") c.restat = v != "0";
